@@ -336,6 +336,12 @@ TrRel ==
                           /\ Clause(nm \o ".relations", RelSet(e.rel1) = RelSet(e.rel2))
                           /\ Clause(nm \o ".count", Len(e.c1) = Len(e.c2))
                           /\ Clause(nm \o ".gens", PS(e.g2a) = C1 /\ PS(e.g2b) = C1)
+                   [] e.kind = "perm-lite" ->
+                          (* very large lattices: the same label-level join / meet statements on a spread of pairs *)
+                          /\ Clause("C15.perm.joinmeet", TS(e.jm1) = TS(e.jm2))
+                          /\ Clause("C15.perm.count", e.n1 = e.n2)
+                          /\ Clause("C15.perm.joinmeet.oracle",
+                                    \A x \in TS(e.jm1) : x[3] = JoinExtent(KV, {x[1], x[2]}) /\ x[4] = x[1] \cap x[2])
                    [] e.kind = "transpose" ->
                           /\ Clause(nm \o ".table", k2 = Transpose(KV))
                           /\ Clause(nm \o ".concepts", C2 = SwapPS(C1))
@@ -361,6 +367,83 @@ TrRel ==
                           /\ Clause(nm \o ".gens", PS(e.g2a) = C2 /\ PS(e.g2b) = C2)
                    [] OTHER -> Clause("domain", FALSE)
 
+(* ---------------- very large lattices: relational clauses only ---------------- *)
+(* Lattices with tens of thousands of concepts or hundreds of atoms are beyond what LatticeOf can    *)
+(* build here; the clauses below need only the context value K and the extents the library itself    *)
+(* reports (kept in `last` by the rel.base event): they state each property directly on those        *)
+(* extents (set inclusion, closures computed from K), for all members or a spread of them.           *)
+TrRelBase ==
+    /\ IsEv("rel.base")
+    /\ K.ok
+    /\ last' = [call |-> "rel.base", X |-> Sets(e.exts), index |-> e.index, dindex |-> e.dindex,
+                 latatoms |-> e.latatoms, inf |-> e.inf, sup |-> e.sup]
+    /\ UNCHANGED <<K, lat>>
+RB == last
+HasBase == K.ok /\ "X" \in DOMAIN last
+TrRelOrder ==
+    /\ IsEv("rel.order")
+    /\ IF HasBase
+       THEN LET X == RB.X  N == Len(X)
+            IN  /\ Clause("C06.iter.shortlex", \A x \in 1..(N - 1) : ShortLess(X[x], X[x + 1]))
+                /\ Clause("C06.index", \A x \in 1..N : RB.index[x] = x - 1)
+                /\ Clause("C06.dindex", \A i \in 1..Len(e.xs) :
+                              RB.dindex[e.xs[i] + 1] = Cardinality({y \in 1..N : LongLess(X[y], X[e.xs[i] + 1])}))
+                /\ Clause("C06.infimum.first", RB.inf = 0)
+                /\ Clause("C06.infimum.least", X[1] = BottomExtent(KV))
+                /\ Clause("C06.supremum.last", RB.sup = N - 1 /\ X[N] = 1..KV.n)
+                /\ Clause("C06.atoms", NoDup(RB.latatoms) /\
+                              {X[a + 1] : a \in ToSet(RB.latatoms)} =
+                              {X[y] : y \in {y \in 2..N : ~ \E z \in 2..N : ProperSub(X[z], X[y])}})
+       ELSE OutOfDomain
+    /\ Skip
+TrRelPred ==
+    /\ IsEv("rel.pred")
+    /\ IF HasBase /\ e.name \in PredNames
+       THEN LET X == RB.X  N == Len(X)
+            IN  Clause("C08." \o e.name,
+                       \A i \in 1..Len(e.xs) :
+                           ToSet(e.rows[i]) = {y - 1 : y \in {y \in 1..N : PredHolds(KV, e.name, X[e.xs[i] + 1], X[y])}})
+       ELSE OutOfDomain
+    /\ Skip
+TrRelJoinMeet ==
+    /\ IsEv("rel.joinmeet")
+    /\ IF HasBase
+       THEN LET X == RB.X
+                E == {X[a + 1] : a \in ToSet(e.args)}
+                want == IF e.name = "join" THEN JoinExtent(KV, E) ELSE MeetExtent(KV, E)
+            IN  /\ Clause("C07." \o e.name \o "." \o e.form, e.res >= 0 /\ X[e.res + 1] = want)
+                /\ Clause("C07." \o e.name \o "." \o e.form \o ".member", e.same)
+       ELSE OutOfDomain
+    /\ Skip
+TrRelTraverse ==
+    /\ IsEv("rel.traverse")
+    /\ IF HasBase
+       THEN LET X == RB.X  N == Len(X)
+                S == {X[a + 1] : a \in ToSet(e.seeds)}
+                want == IF e.up THEN {y \in 1..N : \E s0 \in S : s0 \subseteq X[y]}
+                                ELSE {y \in 1..N : \E s0 \in S : X[y] \subseteq s0}
+            IN  /\ Clause("C09." \o e.name \o ".norepeat", NoDup(e.res))
+                /\ Clause("C09." \o e.name \o ".set", {r + 1 : r \in ToSet(e.res)} = want)
+                /\ Clause("C09." \o e.name \o ".rankorder", Inc(e.rank))
+       ELSE OutOfDomain
+    /\ Skip
+(* labelled: <<member, positions>> for the members that carry a label; atoms: <<member, atom members>> for a spread *)
+TrRelLabels ==
+    /\ IsEv("rel.labels")
+    /\ IF HasBase
+       THEN LET X == RB.X  N == Len(X)
+                OL == ToSet(e.olabelled)
+                PL == ToSet(e.plabelled)
+                LA == {X[a + 1] : a \in ToSet(RB.latatoms)}
+            IN  /\ Clause("C10.objects", \A r \in OL : Inc(r[2]) /\ \A i \in ToSet(r[2]) : ObjConceptExtent(KV, i) = X[r[1] + 1])
+                /\ Clause("C10.objects.once", \A i \in 1..KV.n : Cardinality({r \in OL : i \in ToSet(r[2])}) = 1)
+                /\ Clause("C10.properties", \A r \in PL : Inc(r[2]) /\ \A j \in ToSet(r[2]) : AttrConceptExtent(KV, j) = X[r[1] + 1])
+                /\ Clause("C10.properties.once", \A j \in 1..KV.m : Cardinality({r \in PL : j \in ToSet(r[2])}) = 1)
+                /\ Clause("C10.atoms", \A r \in ToSet(e.atoms) : NoDup(r[2]) /\
+                              {X[a + 1] : a \in ToSet(r[2])} = {a \in LA : a \subseteq X[r[1] + 1]})
+       ELSE OutOfDomain
+    /\ Skip
+
 (* a public call raised on a valid input: the specification defines a result
    for every call it models, so this is never a step of the specification   *)
 TrCrash == /\ IsEv("crash")
@@ -377,6 +460,7 @@ TraceNext ==
     \/ TrTraverse("upset", TRUE) \/ TrTraverse("upset_union", TRUE)
     \/ TrTraverse("downset", FALSE) \/ TrTraverse("downset_union", FALSE)
     \/ TrLatLabels \/ TrRelations \/ TrRelationsStr \/ TrAttributes \/ TrAttributesBig \/ TrMinimal
-    \/ TrGraphviz \/ TrRel \/ TrCrash \/ TrDone
+    \/ TrGraphviz \/ TrRel \/ TrRelBase \/ TrRelOrder \/ TrRelPred \/ TrRelJoinMeet \/ TrRelTraverse \/ TrRelLabels
+    \/ TrCrash \/ TrDone
 TraceSpec == TraceInit /\ [][TraceNext]_vars
 =============================================================================
